@@ -40,7 +40,9 @@ namespace bloch::compiler {
        private:
         std::vector<Token> m_tokens;
         size_t m_current;
-        int m_expressionDepth = 0;  // nesting of the expression being parsed (bounded)
+        int m_expressionDepth = 0;  // depth of the expression tree being built (bounded)
+        int m_operandDepth = 0;     // deepest operand completed inside the current parse call
+        int m_statementDepth = 0;   // nesting of the statement being parsed (bounded)
         // For multi-declarations (e.g. qubit a, b, c;), we parse the first
         // and stage the rest here, then flush them into the surrounding block.
         std::vector<std::unique_ptr<Statement>> m_extraStatements;
